@@ -13,7 +13,7 @@ ASSUMPTIONS = ["configurations are the runnable shipped .ini files verbatim, or 
                "handler and event handlers; private reads: Mediator._state_handler/_scheduler/_activator/"
                "_input_output_handler, Activator._taggers/_internal_states"]
 NT = lambda m: m.stats['interaction_commits_age>=2'] >= 1
-KW = {'sampling_focus': True}
+KW = {'sampling_focus': True, 'small_sampling': True}
 
 
 def body(rec, c):
